@@ -228,4 +228,11 @@ theorem slots_le_peak_live (cap : Nat) (hcap : 4 ≤ cap) (ops : List (C01.Op K 
           simp only [] at hst; subst hst; simp only [C01.step, Option.some.injEq] at hcs; rw [← hcs]
           exact ⟨hs, Nat.le_trans h1 (Nat.le_max_left _ _), Nat.le_trans h2 (Nat.le_max_left _ _), Nat.le_max_right _ _, Nat.le_max_right _ _⟩
 
+/-- non-vacuity: at a concrete three-level state with five freed leaf slots (`C02.demo_state`: 40 inserts, 10 removals)
+    the traversal counts equal the allocated counts of the arenas and the length reader equals the number of entries -/
+example : ∃ s : RState Int Nat, s.height = 2 ∧ s.al.leaf.free.length = 5 ∧
+    (view s).countNodes = .ok ((view s).leaves.len, (view s).branches.len) ∧ (view s).len = .ok 30 := by
+  obtain ⟨s, hs, hsm, hh, hl, hf⟩ := C02.demo_state
+  exact ⟨s, hh, hf, count_nodes_eq_allocated s hs hsm, hl ▸ (introspection_agrees s hs hsm).1⟩
+
 end BPT.Props.C06
